@@ -167,3 +167,14 @@ Print DIAG_known_zero_cell_not_reproduced.
 Definition DIAG_known_rx1_cell_not_reproduced := Eval vm_compute in
   filter (fun x => negb (refuted_check x)) c12_known_cells.
 Print DIAG_known_rx1_cell_not_reproduced.
+
+(* informational, NOT a failing key (no DIAG_ prefix): size-table rows keyed by an index that is no
+   data-rate of the band - (name, repeater, dwell, version key, revision key, DR).  Second audit,
+   C13 item 1: IN865 lists a size for the RFU index 6 in all its tables; considered, not claimed
+   (the clause enumerates channel ranges, RX1 results, RX2 default and enabled uplink data-rates,
+   not the key set of the payload tables; see notes/C13.md) *)
+Definition INFO_size_rows_for_undefined_dr := Eval vm_compute in
+  flat_map (fun c => flat_map (fun k =>
+    map (fun e => (id_of c, fst (fst k), snd (fst k), fst e))
+        (filter (fun e => negb (dr_defined (c_tab c) (fst e))) (snd k))) (keyed_size_tables (c_tab c))) band_configs.
+Print INFO_size_rows_for_undefined_dr.
